@@ -43,6 +43,19 @@ pub(crate) fn verify_membership<TC: Configuration>(
     let mut curr_label = proof.label;
 
     for sibling_proof in proof.sibling_proofs.iter().rev() {
+        // Every node has to hang below its parent on the side its own label says. The hashes bind
+        // a node's label to its parent but not its position, so without this check a leaf placed
+        // off its label's path would be present for membership proofs while a non-membership
+        // proof along the path shows it absent under the same root hash
+        if Direction::try_from(sibling_proof.label.get_prefix_ordering(curr_label))
+            != Ok(sibling_proof.direction)
+        {
+            return Err(VerificationError::MembershipProof(format!(
+                "Membership proof for label {:?} does not follow the path of its labels",
+                proof.label
+            )));
+        }
+
         let sibling = sibling_proof.siblings[0];
         let (left_val, left_label, right_val, right_label) = match sibling_proof.direction {
             Direction::Left => (
